@@ -11,7 +11,7 @@ pub fn def() -> CheckDef {
     CheckDef {
         id: "C18",
         level: "exploration",
-        rule: "(a) every single-token deletion, duplication, adjacent swap and substitution by each token of a 40-token alphabet at every token position of every seed grammar (all .lalrpop files of the repository up to a size cap, plus feature-dense harness grammars: precedence, macros with conditions, match blocks, cfg, error recovery, ascent); (b) all strings of length <= k over a 20-character lexical alphabet appended after `grammar;`; (c) precedence/assoc attribute layouts over a value pool incl. malformed ones on 2-3 alternatives of 6 operator shapes; (d) byte-level cases (empty, non-UTF-8, CRLF, no final newline, NUL, BOM). Each text is processed in-process under catch_unwind and a watchdog. distinct_nontrivial = texts that LALRPOP rejected with a diagnostic (each text is distinct by construction of the edit)",
+        rule: "(a) every single-token deletion, duplication, adjacent swap and substitution by each token of a 40-token alphabet at every token position of every seed grammar (all .lalrpop files of the repository up to a size cap, plus feature-dense harness grammars: precedence, macros with conditions, match blocks, cfg, error recovery, ascent); (b) all strings of length <= k over a 20-character lexical alphabet appended after `grammar;`; (c) precedence/assoc attribute layouts over a value pool incl. malformed ones on 2-3 alternatives of 6 operator shapes; (d) byte-level cases (empty, non-UTF-8, CRLF, no final newline, NUL, BOM); (f) every subset of six precedence/assoc-annotated alternatives switched off by an inactive `#[cfg]`; (e) eight erroneous templates whose diagnostic spans a whole alternative, laid out over 1-3 lines with 0-8 multi-byte terminals in front of the offending text. Each text is processed in-process under catch_unwind and a watchdog. distinct_nontrivial = texts that LALRPOP rejected with a diagnostic (each text is distinct by construction of the edit)",
         evaluations: "texts",
         nontrivial: "rejected_with_diagnostic",
         mc: None,
@@ -351,6 +351,76 @@ fn run(ctx: &mut Ctx) {
             ctx.count("attr_layouts");
             judge(ctx, &dir, text.as_bytes(), "attribute layout", &format!("{:?}/{}", shape_sel, code));
             ctx.end_case();
+        }
+    }
+    // (e) diagnostics over multi-line spans with non-ASCII text: every erroneous template whose
+    // diagnostic span is a whole alternative or nonterminal is laid out over several lines, with
+    // k multi-byte terminals before the offending text on its first line (byte column > character
+    // count) and lines of different lengths after it; the renderer of the diagnostic is part of
+    // "yields a diagnostic"
+    {
+        // {P} = prefix of multi-byte terminals, {NL} = line break with indentation
+        let templates: Vec<(&str, &str)> = vec![
+            ("mixed-names", "grammar;\npub S: () = {\n    {P} <a:\"a\">{NL}\"b\"{NL}<>{NL}\"c\" => (),\n};\n"),
+            ("conflict", "grammar;\npub S: () = {\n    {P} \"a\"{NL}\"b\" => (),\n    {P} \"a\"{NL}\"b\"{NL}=> (),\n};\n"),
+            ("undefined", "grammar;\npub S: () = {\n    {P} \"a\"{NL}Missing{NL}\"b\" => (),\n};\n"),
+            ("angle-without-names", "grammar;\npub S: u32 = {\n    {P} \"a\"{NL}\"b\" => {NL}{<>},\n};\n"),
+            ("bad-macro-arity", "grammar;\nM<X>: () = X => ();\npub S: () = {\n    {P} M<\"a\",{NL}\"b\"> => (),\n};\n"),
+            ("type-mismatch", "grammar;\npub S = {\n    {P} \"a\"{NL}\"b\" => 1u8,\n    {P} <x:\"c\">{NL}<y:\"d\"> =>{NL}(x, y),\n};\n"),
+            ("dup-nonterminal", "grammar;\npub S: () = {\n    {P} \"a\" => (),\n};\nS: () = {{NL}{P} \"b\"{NL}=> (),\n};\n"),
+            ("precedence-first-assoc", "grammar;\npub E: () = {\n    #[precedence(level=\"1\")] #[assoc(side=\"left\")]{NL}{P} E \"+\"{NL}E => (),\n};\n"),
+        ];
+        let prefixes = ["", "\"∧\"", "\"∧\" \"→\" \"λ\"", "\"∧\" \"→\" \"λ\" \"∀\" \"∃\" \"⊢\" \"漢\" \"😀\""];
+        let breaks = [" ", "\n", "\n        ", "\n\n  "];
+        let mut k = 0u64;
+        for (name, t) in &templates {
+            for p in prefixes {
+                for nl in breaks {
+                    k += 1;
+                    let idx = u64::MAX / 3 + k;
+                    if !ctx.mine(k) || !ctx.begin_case(idx) {
+                        continue;
+                    }
+                    let text = t.replace("{P}", p).replace("{NL}", nl);
+                    ctx.count("multiline_diagnostic_texts");
+                    judge(ctx, &dir, text.as_bytes(), "multi-line non-ASCII diagnostic", name);
+                    ctx.end_case();
+                }
+            }
+        }
+    }
+    // (f) `#[cfg]` next to `#[precedence]`/`#[assoc]`: validation runs before conditional compilation
+    // removes alternatives, so each subset of alternatives switched off by an inactive feature
+    // gives the expander a level layout the validator never saw
+    if ctx.shard == 2 % ctx.nshards {
+        let alts = [
+            ("#[precedence(level=\"1\")]", "\"a\" => ()"),
+            ("#[precedence(level=\"1\")] #[assoc(side=\"all\")]", "\"(\" E \")\" => ()"),
+            ("#[precedence(level=\"2\")] #[assoc(side=\"left\")]", "E \"+\" E => ()"),
+            ("", "E \"-\" E => ()"),
+            ("#[precedence(level=\"3\")] #[assoc(side=\"right\")]", "E \"^\" E => ()"),
+            ("#[precedence(level=\"3\")] #[assoc(side=\"none\")]", "\"!\" E => ()"),
+        ];
+        for mask in 0u32..(1 << alts.len()) {
+            for order in 0..2 {
+                let idx = u64::MAX / 5 + (mask as u64) * 2 + order;
+                if !ctx.begin_case(idx) {
+                    continue;
+                }
+                let mut text = String::from("grammar;\npub E: () = {\n");
+                for (i, (attrs, body)) in alts.iter().enumerate() {
+                    let cfg = if mask & (1 << i) != 0 { "#[cfg(feature=\"off\")] " } else { "" };
+                    if order == 0 {
+                        text.push_str(&format!("    {}{} {},\n", cfg, attrs, body));
+                    } else {
+                        text.push_str(&format!("    {} {}{},\n", attrs, cfg, body));
+                    }
+                }
+                text.push_str("};\n");
+                ctx.count("cfg_precedence_layouts");
+                judge(ctx, &dir, text.as_bytes(), "cfg x precedence layout", &format!("mask {:06b} order {}", mask, order));
+                ctx.end_case();
+            }
         }
     }
     // (d) byte-level cases
